@@ -224,7 +224,7 @@ def check_scans(ctx, kinds=('lower', 'higher', 'closest'), fill_true_only=False,
                     if not _inside_pred(e.data['value'], t):
                         bad.append(f"{show(t, 40)} in the value stored at line {getattr(e.node, 'lineno', '?')}")
         for e in m.ev.events:
-            if e.kind in ('lib', 'call', 'method', 'apply') and e.loops and e.data.get('name') not in ('builtins.next', 'builtins.len'):
+            if e.kind in ('lib', 'call', 'method', 'apply') and e.loops and e.data.get('name') not in ('builtins.next', 'builtins.len') + COMPARISON_FUNCTIONS:
                 bad.append(f"{e.data.get('name') or getattr(e.data.get('callee'), 'name', e.kind)} called inside the scan at line {getattr(e.node, 'lineno', '?')}")
         ctx.check(not bad, 'C10.2', f"{kind}: element values flow only into comparisons; stored indices are built from counters only", f"{bad[:4]}",
                   fi.loc(), fi.qualname, f"{kind}:taint")
@@ -235,6 +235,10 @@ def check_scans(ctx, kinds=('lower', 'higher', 'closest'), fill_true_only=False,
         ctx.sample({'rule': 'C10.3', 'scan': kind, 'prefix': str(Pf['cond']), 'advance': str(Ad['cond']),
                     'result': [f"{m.guard_in(Mn, e)} -> {show(e.data['value'], 50)}" for e in m.stores(Mn)][:4],
                     'roles': {'query': m.lkn, 'look-ahead': m.nxt, 'current': m.cur, 'array counter': m.p, 'query counter': m.q, 'result': m.ind}})
+
+
+# operator.lt(a, b) is the comparison a < b (the evaluator folds it to the same predicate): a use in a comparison, not a leak of the element value
+COMPARISON_FUNCTIONS = ('operator.lt', 'operator.le', 'operator.gt', 'operator.ge', 'operator.eq', 'operator.ne')
 
 
 def _single(v):
